@@ -23,12 +23,37 @@ Theorem C21_reregister_available : forall tab s li p t,
   available (fst (register tab s li p t)) a (key_of tab li) = true.
 Proof. exact register_available. Qed.
 
-(* "the source location chosen for a transfer is always a valid primary copy": whatever get_source_location
-   returns is PRIMARY and is among the locations get_data_locations reports (hence not INVALID), in every state *)
-Theorem C21_source_valid : forall tab s p dst r,
+(* "the source location chosen for a transfer is always a valid primary copy".
+   PARTIAL, and little more than the definition: whatever get_source_location returns has data_type PRIMARY and is
+   one of the objects get_data_locations(path) reports (immediate from the PRIMARY / not-INVALID filters).  It does
+   NOT say that the copy the object stands for is still valid - see the two theorems below. *)
+Theorem C21_source_valid_partial : forall tab s p dst r,
   In r (source_candidates tab s p dst) ->
   exists x, hget s r = Some x /\ dl_type x = PRIMARY /\ In r (get_dl s p None None None).
 Proof. exact source_valid. Qed.
+(* on histories of registrations (no wrapping) and invalidations the chosen source IS a valid primary copy: it is
+   PRIMARY, it is the copy of the requested path itself, and that path is available on the source's location *)
+Theorem C21_source_valid_plain_partial : forall tab h p dst r,
+  nowrap tab -> Forall d1_op h ->
+  let s := rs (run tab h) in
+  In r (source_candidates tab s p dst) ->
+  exists x, hget s r = Some x /\ dl_type x = PRIMARY /\ dl_path x = p /\ available s p (dl_loc x) = true.
+Proof. exact source_valid_plain. Qed.
+(* in general the clause is FALSE of the faithful model (the duplicate-object known finding seen through
+   get_source_location, signature source-valid/dupreg): register /a/a twice, register /z, relate(/z, the second
+   object), invalidate /a/a - get_source_location("/z", "d1") can only return d1/n1:/a/a, a copy whose own path is
+   no longer available on that location *)
+Theorem C21_source_valid_refuted :
+  exists tab ops p dst r x,
+    let s := rs (run tab ops) in
+    source_candidates tab s p dst = [r] /\ hget s r = Some x /\ dl_type x = PRIMARY /\
+    available s (dl_path x) (dl_loc x) = false.
+Proof.
+  exists [mkloc ("d1", "n1") false None []],
+         [Reg 0 ["a"; "a"] PRIMARY; Reg 0 ["a"; "a"] PRIMARY; Reg 0 ["z"] PRIMARY; Rel 2 1; Inv 0 ["a"; "a"]],
+         ["z"], "d1", 3, (mkdloc ("d1", "n1") ["a"; "a"] PRIMARY).
+  vm_compute. repeat split; reflexivity.
+Qed.
 
 (* registrations and relations never take anything away: every object keeps its contents and every node keeps
    its objects (only invalidate_location makes a path unavailable) *)
@@ -145,7 +170,9 @@ Example C21_source_example :
 Proof. vm_compute. reflexivity. Qed.
 
 Print Assumptions C21_reregister_available.
-Print Assumptions C21_source_valid.
+Print Assumptions C21_source_valid_partial.
+Print Assumptions C21_source_valid_plain_partial.
+Print Assumptions C21_source_valid_refuted.
 Print Assumptions C21_register_monotone_partial.
 Print Assumptions C21_relate_monotone_partial.
 Print Assumptions C21_invalidated_copy_reported_refuted.
